@@ -585,17 +585,12 @@ def rule_g(repo, chk):
                 n += 1
                 tg = exact_type_gate(repo, is_live)
                 dg = dict_gate(is_live)
-                w = gate(f, c, lambda e, pol: tg(e, pol) or dg(e, pol) or unsafe_switch_gate(e, pol))
-                if w is None:
-                    chk.ob('C13.g', True, c, '`%s` is gated in the method' % short(c))
-                    continue
-                outer = q.split('.')
-                meth = [p_ for p_ in outer if p_ in ('get_key_paths',)]
-                if classified is None:
-                    classified = _classifier_ok(repo, chk, dict_gate)
-                ok = bool(meth) and classified
-                chk.ob('C13.g', ok, c, '`%s` in %s runs only for values get_array_type() classified as builtin dict' % (short(c), q),
-                       '' if ok else ('ungated: %s' % w), key='keys|%s|%s' % (q, norm(c)))
+                # a BOUND method call is looked up on the object: a dict subclass overriding keys()/values() has its code run, so only an
+                # exact-type gate (or the unsafe switch) makes it safe; isinstance() is enough for the unbound builtin form below
+                w = gate(f, c, lambda e, pol: tg(e, pol) or unsafe_switch_gate(e, pol))
+                chk.ob('C13.g', w is None, c, 'the bound call `%s` in %s is gated by an exact builtin type or the unsafe switch' % (short(c), q),
+                       ('only isinstance()/classification stands in front of it (a subclass passes and its override runs); use dict.%s(obj): %s'
+                        % (c.func.attr, w)) if w else '', key='keys|%s|%s' % (q, norm(c)))
     # the other safe form: the builtin's own method called unbound on the object (dict.keys(obj), list.__iter__(obj)): a subclass
     # cannot intercept it
     for modname in (ACCESS, MIXED):
